@@ -78,6 +78,18 @@ PATHS_COLON = ["/tmp/a:b:c", "/tmp/Size: 4 kB", "/tmp/Pss:", "/x/VmFlags: rd", "
                "/srv/Swap: 7 kB/f", "/tmp/e:"]
 PATHS_DELETED = ["/tmp/gone.so (deleted)", "/memfd:jit (deleted)", "/dev/zero (deleted)",
                  "/SYSV00000000 (deleted)", "/tmp/a b (deleted)", "/tmp/c: d (deleted)"]
+# real files, so that psutil's own existence test of a ' (deleted)' name sees a genuine answer:
+#  - "<fx>/lit (deleted)" EXISTS under that literal name -> it is the mapping's own path and must be reported verbatim
+#  - "<fx>/recreated (deleted)": only "<fx>/recreated" exists (file replaced in place) -> either form accepted
+from vlib.fixtures import FX_DIR as _FX  # noqa: E402
+_C13_DIR = os.path.join(_FX, "c13")
+os.makedirs(_C13_DIR, exist_ok=True)
+for _n in ("lit (deleted)", "recreated", "report (deleted)"):
+    if not os.path.exists(os.path.join(_C13_DIR, _n)):
+        with open(os.path.join(_C13_DIR, _n), "w") as _f:
+            _f.write("x")
+PATHS_DELETED += [os.path.join(_C13_DIR, "lit (deleted)"), os.path.join(_C13_DIR, "recreated (deleted)"),
+                  os.path.join(_C13_DIR, "report (deleted)"), os.path.join(_C13_DIR, "lit (deleted)")]
 PATHS_SPECIAL = ["[heap]", "[stack]", "[vdso]", "[vvar]", "[vsyscall]", "[anon:scudo primary]",
                  "[anon_shmem:x y]", "[stack:1234]", "anon_inode:[io_uring]", "/dev/null", "/memfd:buf"]
 PATHS_BYTES = ["/tmp/\xff\xfe.so", "/tmp/caf\xc3\xa9", "/tmp/a\\012b", "/tmp/\xe2\x82\xac uro"]
@@ -299,7 +311,7 @@ def names_for(path):
         return {"[anon]"}
     d = dec(path)
     out = {d}
-    if d.endswith(" (deleted)"):
+    if d.endswith(" (deleted)") and not os.path.exists(d):
         out.add(d[:-10])
     return out
 
